@@ -49,7 +49,8 @@ def number (s : Str) : Option (Option JVal × Str) :=
               if ed.isEmpty then none
               else
                 -- cap the magnitude; anything beyond is out of float64 range or zero anyway
-                let ev := if ed.length > 6 then 1000000 else digitsVal ed
+                let sig := ed.dropWhile (· == '0')
+                let ev := if sig.length > 6 then 1000000 else digitsVal sig
                 some (some (esign * (ev : Int)), r)
             else some (none, s3)
           | [] => some (none, [])
